@@ -174,7 +174,9 @@ PreLoop(ns, i, pv) ==
                   ELSE LET port_value == IF has THEN pv.m[name]
                                          ELSE IF HasDefault(port) THEN port.def.v            \* default() if callable(default) else default
                                          ELSE EmptyMap                                       \* namespace with ports: {}
-                           sub == IF port.node = "ns" THEN PreProcess(port, port_value) ELSE Ok(port_value)
+                           \* repaired (DevFalsy off): a value that is not a mapping is left for validate() to reject
+                           sub == IF port.node = "ns" /\ (IsMap(port_value) \/ DevFalsy \in Dev)
+                                  THEN PreProcess(port, port_value) ELSE Ok(port_value)
                        IN IF sub.exc # "none" THEN sub
                           ELSE IF ~IsMap(pv) THEN [Raise("TypeError") EXCEPT !.dev = sub.dev]  \* port_values[name] = ... on a str
                           ELSE LET nx == PreLoop(ns, i + 1, Put(pv, name, sub.out))
